@@ -392,3 +392,21 @@ package dataflow
 //@ func Instr
 //@   property C13
 //@   pure
+
+// ---------------------------------------------------------------------------
+// C05 / C10: which functions are summarised from their body in the eager pass.
+// With summarize-on-demand nothing is built eagerly; a function whose summary is
+// always required is built; without a pkg-filter a function is NOT summarised from
+// its body when its package has predefined summaries or the user supplied a dataflow
+// specification for it (C10: the specification is used instead of the body); with a
+// pkg-filter exactly the functions of matching packages (and of the command-line
+// package) are built -- the traversals build the others lazily.
+//@ macro OD() = old(state.Config != nil && state.Config.SummarizeOnDemand)
+//@ func ShouldBuildSummary
+//@   property C05 C10
+//@   requires state != nil
+//@   ensures on_demand_builds_nothing: OD() ==> !result
+//@   ensures required_always: !OD() && (function == nil || summaries.IsSummaryRequired(function)) ==> result
+//@   ensures spec_replaces_body: !OD() && function != nil && !summaries.IsSummaryRequired(function) && function.Package() != nil && old(state.Config == nil || state.Config.PkgFilter == "") ==> (result <==> !(summaries.PkgHasSummaries(function.Package()) || old(state.HasExternalContractSummary(function))))
+//@   ensures filter_selects_packages: !OD() && function != nil && !summaries.IsSummaryRequired(function) && function.Package() != nil && old(state.Config != nil && state.Config.PkgFilter != "") && function.Package().Pkg.Path() == "command-line-arguments" ==> result
+//@   modifies nothing
